@@ -92,9 +92,8 @@ impl C15 {
             let b = eng::moves(&mut g, true).len();
             let _ = g.fen();
             let _ = format!("{}", g);
-            // the quiescence search does not poll the stop flag; on boards full of queens its capture
-            // chains run for minutes, so an in-process search (which cannot be killed) is only started
-            // on boards with few heavy pieces; the others are searched through the checked binary
+            // searches of boards full of queens are extremely slow (capture chains); an in-process search is
+            // only started on boards with few heavy pieces, the others are searched through the checked binary
             let heavy = fen.split(' ').next().unwrap_or("").bytes().filter(|c| b"QRqr".contains(c)).count();
             if heavy <= 4 {
                 let mut t = srch::new_table();
